@@ -65,6 +65,14 @@ const (
 // not an ICANN suffix, so every tail of a host is hashable.
 var vc12Hosts = []string{"a.test", "x.a.test", "y.x.a.test", "b.test", "x.b.test", "c.test"}
 
+// vc12QueryHosts are the names that are asked: the pool (three times as likely)
+// plus names that no rule or hash list names but that are one step away from
+// names they do: "aa.test" shares a prefix with "a.test" without a label
+// boundary, "z.y.x.a.test" has five labels (its own hash is never consulted,
+// those of its last four labels are), and "" is the host of the root question.
+var vc12QueryHosts = append(append(append(append([]string{}, vc12Hosts...), vc12Hosts...), vc12Hosts...),
+	"aa.test", "z.y.x.a.test", "")
+
 var (
 	vc12ListIDs = []string{"rl_one", "rl_two", "rl_three"}
 	vc12SvcIDs  = []string{"svc_one", "svc_two", "svc_three"}
@@ -124,6 +132,12 @@ func vc12RuleText(kind int, host string, n int) string {
 	case vc12KRewriteRefused:
 		return "||" + host + "^$dnsrewrite=REFUSED"
 	case vc12KAnswerIP:
+		if n == 2 {
+			// The unspecified address is what blocked answers of other
+			// resolvers carry.
+			return "||0.0.0.0^"
+		}
+
 		return fmt.Sprintf("||192.0.2.%d^", 1+n)
 	case vc12KRewriteAAAA:
 		return fmt.Sprintf("|%s^$dnsrewrite=NOERROR;AAAA;2001:db8::%d", host, 10+n)
@@ -444,7 +458,14 @@ func (c *vc12ErrColl) take() (errs []string) {
 // vc12Side is one storage with its hash-prefix filters.
 type vc12Side struct {
 	cached bool
-	mgr    *agdcache.DefaultManager
+
+	// cloner is the side's message cloner, shared by its hash-prefix filters
+	// and by the message constructors its requests carry, as the one global
+	// cloner is in the service.  Only the cache-enabled side ever returns
+	// messages to its pools.
+	cloner *dnsmsg.Cloner
+
+	mgr *agdcache.DefaultManager
 	strg   *filterstorage.Default
 	hp     [3]*hashprefix.Filter
 	errs   *vc12ErrColl
@@ -455,10 +476,14 @@ type vc12SideConf struct {
 	// HPRepl is the replacement host of every hash-prefix filter.
 	HPRepl [3]string `json:"hp_repl"`
 
-	// SmallCaches makes the LRUs of the cache-enabled side tiny so that
-	// evictions happen inside a history.
-	SmallCaches bool `json:"small_caches"`
+	// CacheCount is the size of every LRU of the cache-enabled side; the small
+	// ones make evictions happen inside a history.
+	CacheCount int `json:"cache_count"`
 }
+
+// vc12CacheCounts are the LRU sizes drawn: the smallest legal one, the next
+// one, and one that is never reached.
+var vc12CacheCounts = []int{1, 2, 100, 100}
 
 var vc12Repls = []string{"192.0.2.200", "2001:db8::200", "repl.block.test"}
 
@@ -468,10 +493,15 @@ const (
 )
 
 func vc12NewSide(srv *vc12Srv, dir string, conf *vc12SideConf, cached bool) (sd *vc12Side, err error) {
-	sd = &vc12Side{cached: cached, mgr: agdcache.NewDefaultManager(), errs: &vc12ErrColl{}}
+	sd = &vc12Side{
+		cached: cached,
+		cloner: dnsmsg.NewCloner(dnsmsg.EmptyClonerStat{}),
+		mgr:    agdcache.NewDefaultManager(),
+		errs:   &vc12ErrColl{},
+	}
 	count := 100
-	if cached && conf.SmallCaches {
-		count = 2
+	if cached && conf.CacheCount > 0 {
+		count = conf.CacheCount
 	}
 
 	err = os.MkdirAll(dir, 0o755)
@@ -488,7 +518,7 @@ func vc12NewSide(srv *vc12Srv, dir string, conf *vc12SideConf, cached bool) (sd 
 
 		sd.hp[k], err = hashprefix.NewFilter(&hashprefix.FilterConfig{
 			Logger:          slogutil.NewDiscardLogger(),
-			Cloner:          dnsmsg.NewCloner(dnsmsg.EmptyClonerStat{}),
+			Cloner:          sd.cloner,
 			CacheManager:    sd.mgr,
 			Hashes:          hashes,
 			URL:             srv.url(fmt.Sprintf("/hp/%d", k)),
@@ -634,9 +664,14 @@ type vc12Req struct {
 
 	CustomEnabled bool     `json:"custom_enabled"`
 	CustomRules   []string `json:"custom_rules"`
-	CustomUpd     int      `json:"custom_upd"`
 
-	msgs *dnsmsg.Constructor
+	// CustomUpd is the update time of the custom rules, in nanoseconds after
+	// the base; ZeroBase makes the base the zero time.
+	CustomUpd int64 `json:"custom_upd_ns"`
+	ZeroBase  bool  `json:"zero_base"`
+
+	// msgs are the requester's message constructors, one per side.
+	msgs [2]*dnsmsg.Constructor
 }
 
 var vc12ModeNames = []string{"nullip", "nxdomain", "refused", "customip4", "customip46"}
@@ -659,16 +694,21 @@ func vc12Mode(i int) dnsmsg.BlockingMode {
 	}
 }
 
-func (r *vc12Req) init() (err error) {
-	r.msgs, err = dnsmsg.NewConstructor(&dnsmsg.ConstructorConfig{
-		Cloner:              dnsmsg.NewCloner(dnsmsg.EmptyClonerStat{}),
-		BlockingMode:        vc12Mode(r.Mode),
-		StructuredErrors:    &dnsmsg.StructuredDNSErrorsConfig{Enabled: false},
-		FilteredResponseTTL: time.Duration(r.TTL) * time.Second,
-		EDEEnabled:          r.EDE,
-	})
+func (r *vc12Req) init(cloners [2]*dnsmsg.Cloner) (err error) {
+	for i, cl := range cloners {
+		r.msgs[i], err = dnsmsg.NewConstructor(&dnsmsg.ConstructorConfig{
+			Cloner:              cl,
+			BlockingMode:        vc12Mode(r.Mode),
+			StructuredErrors:    &dnsmsg.StructuredDNSErrorsConfig{Enabled: false},
+			FilteredResponseTTL: time.Duration(r.TTL) * time.Second,
+			EDEEnabled:          r.EDE,
+		})
+		if err != nil {
+			return err
+		}
+	}
 
-	return err
+	return nil
 }
 
 // params is the identity of everything about the requester that shapes a
@@ -692,7 +732,7 @@ func vc12DrawSubset(t *rapid.T, all []string, label string) (sub []string) {
 	return sub
 }
 
-func vc12DrawReq(t *rapid.T, i int, group bool) (r *vc12Req) {
+func vc12DrawReq(t *rapid.T, i int, group bool, cloners [2]*dnsmsg.Cloner) (r *vc12Req) {
 	r = &vc12Req{
 		Name:    fmt.Sprintf("p%d", i),
 		Group:   group,
@@ -727,7 +767,9 @@ func vc12DrawReq(t *rapid.T, i int, group bool) (r *vc12Req) {
 		r.CustomRules = vc12DrawRules(t, vc12KindsList, 1, 3)
 	}
 
-	err := r.init()
+	r.ZeroBase = rapid.IntRange(0, 3).Draw(t, "zerobase") == 0
+
+	err := r.init(cloners)
 	if err != nil {
 		panic(err)
 	}
@@ -766,7 +808,7 @@ func (r *vc12Req) config() filter.Config {
 
 	custom := &filter.ConfigCustom{
 		ID:         r.Name,
-		UpdateTime: vc12CustomBase.Add(time.Duration(r.CustomUpd) * time.Second),
+		UpdateTime: r.customTime(),
 		Enabled:    r.CustomEnabled && len(r.CustomRules) > 0,
 	}
 	for _, s := range r.CustomRules {
@@ -774,6 +816,14 @@ func (r *vc12Req) config() filter.Config {
 	}
 
 	return &filter.ConfigClient{Custom: custom, Parental: par, RuleList: rl, SafeBrowsing: sb}
+}
+
+func (r *vc12Req) customTime() time.Time {
+	if r.ZeroBase {
+		return time.Time{}.Add(time.Duration(r.CustomUpd))
+	}
+
+	return vc12CustomBase.Add(time.Duration(r.CustomUpd))
 }
 
 func (r *vc12Req) customActive() bool { return !r.Group && r.CustomEnabled && len(r.CustomRules) > 0 }
@@ -808,6 +858,9 @@ type vc12Q struct {
 	// EDNS: 0 = none, 1 = OPT, 2 = OPT with DO.
 	EDNS int    `json:"edns"`
 	UDP  uint16 `json:"udp"`
+
+	// ECS adds a client-subnet option to the OPT record.
+	ECS bool `json:"ecs"`
 }
 
 func (q *vc12Q) msg() (m *dns.Msg) {
@@ -816,9 +869,25 @@ func (q *vc12Q) msg() (m *dns.Msg) {
 	m.RecursionDesired = q.RD
 	m.CheckingDisabled = q.CD
 	m.AuthenticatedData = q.AD
-	m.Question = []dns.Question{{Name: q.Name, Qtype: q.QT, Qclass: q.QC}}
+	// A CHAOS question is a debug request: mainmw rewrites the class in the
+	// message to IN, while the request information keeps CHAOS.
+	qc := q.QC
+	if qc == dns.ClassCHAOS {
+		qc = dns.ClassINET
+	}
+
+	m.Question = []dns.Question{{Name: q.Name, Qtype: q.QT, Qclass: qc}}
 	if q.EDNS > 0 {
 		m.SetEdns0(q.UDP, q.EDNS == 2)
+		if q.ECS {
+			opt := m.IsEdns0()
+			opt.Option = append(opt.Option, &dns.EDNS0_SUBNET{
+				Code:          dns.EDNS0SUBNET,
+				Family:        1,
+				SourceNetmask: 24,
+				Address:       []byte{198, 51, 100, 0},
+			})
+		}
 	}
 
 	return m
@@ -827,7 +896,7 @@ func (q *vc12Q) msg() (m *dns.Msg) {
 // flags is the identity of everything about the request, other than the cache
 // key, that shapes a constructed message.
 func (q *vc12Q) flags() string {
-	return fmt.Sprintf("%s/rd%t/cd%t/ad%t/edns%d/%d", q.Name, q.RD, q.CD, q.AD, q.EDNS, q.UDP)
+	return fmt.Sprintf("%s/rd%t/cd%t/ad%t/edns%d/%d/ecs%t", q.Name, q.RD, q.CD, q.AD, q.EDNS, q.UDP, q.ECS)
 }
 
 func (q *vc12Q) String() string {
@@ -852,7 +921,8 @@ func vc12MixCase(t *rapid.T, s string) string {
 // vc12DrawFlags fills the parts of q that are not in the cache key.  plain
 // makes all requests look alike except for the ID.
 func vc12DrawFlags(t *rapid.T, q *vc12Q, plain bool) {
-	q.ID = uint16(rapid.IntRange(1, 65535).Draw(t, "id"))
+	q.ID = uint16(rapid.IntRange(0, 65535).Draw(t, "id"))
+	q.ECS = false
 	q.Name = dns.Fqdn(q.Host)
 	q.RD = true
 	if plain {
@@ -864,15 +934,17 @@ func vc12DrawFlags(t *rapid.T, q *vc12Q, plain bool) {
 	q.CD = rapid.IntRange(0, 3).Draw(t, "cd") == 0
 	q.AD = rapid.IntRange(0, 3).Draw(t, "ad") == 0
 	q.EDNS = rapid.IntRange(0, 2).Draw(t, "edns")
+	q.UDP = 0
 	if q.EDNS > 0 {
-		q.UDP = rapid.SampledFrom([]uint16{512, 1232, 4096}).Draw(t, "udp")
+		q.UDP = rapid.SampledFrom([]uint16{512, 1232, 4096, 0}).Draw(t, "udp")
+		q.ECS = rapid.IntRange(0, 3).Draw(t, "ecs") == 0
 	}
 }
 
-func (q *vc12Q) request(r *vc12Req) *filter.Request {
+func (q *vc12Q) request(r *vc12Req, side int) *filter.Request {
 	return &filter.Request{
 		DNS:        q.msg(),
-		Messages:   r.msgs,
+		Messages:   r.msgs[side],
 		RemoteIP:   netip.MustParseAddr(r.IP),
 		ClientName: r.CliName,
 		Host:       q.Host,
@@ -896,7 +968,11 @@ func vc12DrawAnswers(t *rapid.T, owner string) (rrs []dns.RR) {
 		}
 
 		v4 := func() netip.Addr {
-			return netip.AddrFrom4([4]byte{192, 0, 2, byte(rapid.IntRange(1, 4).Draw(t, "ip4"))})
+			if n := rapid.IntRange(0, 4).Draw(t, "ip4"); n > 0 {
+				return netip.AddrFrom4([4]byte{192, 0, 2, byte(n)})
+			}
+
+			return netip.IPv4Unspecified()
 		}
 
 		switch rapid.IntRange(0, 5).Draw(t, "anskind") {
@@ -1006,6 +1082,38 @@ func vc12Render(r filter.Result) (res vc12Res) {
 	default:
 		return vc12Res{Kind: fmt.Sprintf("%T", r)}
 	}
+}
+
+// vc12OwnMessage checks what holds for every message a filter builds, whoever
+// asked before: a modified response answers this request and every record in
+// it carries this requester's filtered-response TTL; a modified request asks
+// this request's type.  It returns "" or what is wrong.
+func vc12OwnMessage(r *vc12Req, q *vc12Q, res vc12Res) string {
+	req := q.msg()
+	switch m := res.msg; res.Kind {
+	case "modresp":
+		if !m.Response || m.Id != req.Id || len(m.Question) != 1 || m.Question[0] != req.Question[0] {
+			return "the modified response is not a reply to this request:\n" + res.Msg
+		}
+
+		for _, sec := range [][]dns.RR{m.Answer, m.Ns, m.Extra} {
+			for _, rr := range sec {
+				if _, ok := rr.(*dns.OPT); !ok && rr.Header().Ttl != uint32(r.TTL) {
+					return fmt.Sprintf("a record of the modified response has TTL %d, the requester's is %d:\n%s", rr.Header().Ttl, r.TTL, res.Msg)
+				}
+			}
+		}
+
+		if (m.IsEdns0() != nil) && req.IsEdns0() == nil {
+			return "the modified response has an OPT record, the request has none:\n" + res.Msg
+		}
+	case "modreq":
+		if len(m.Question) != 1 || m.Question[0].Qtype != req.Question[0].Qtype || m.Question[0].Qclass != req.Question[0].Qclass {
+			return "the modified request does not ask this request's type and class:\n" + res.Msg
+		}
+	}
+
+	return ""
 }
 
 // ---------------------------------------------------------------------------
